@@ -71,19 +71,21 @@ Definition touches_env (s : state) (x : op) (l : lkey) : bool :=
 
 (* ---- one step: a file that disappears was unreferenced -------------------------------------------------------- *)
 Lemma step_deletes_unreferenced_p : forall s x l c,
-  sharing_visible s = true -> reingest s x = false -> target_inside x = true ->
+  sharing_visible s = true -> reingest s x = false -> target_inside x = true -> put_coherent x = true ->
   touches_env s x l = false ->
   fget (fs s) l = Some c -> fget (fs (fst (step s x))) l = None ->
   referenced (fst (step s x)) l = false.
 Proof.
-  intros s x l c Hvis Hre Hti Henv Hf Hd.
+  intros s x l c Hvis Hre Hti Hpc Henv Hf Hd.
   destruct x as [id fr ext c0 | m ids fr ext src | ids a | ids rel | members z c0 | ids | | ids | ids | l' c'];
     unfold step, step_v in Hd |- *; simpl in Hre, Hti, Henv.
   - (* Put *)
     destruct fr as [p| |]; [| simpl in Hd; rewrite Hf in Hd; discriminate | simpl in Hd; rewrite Hf in Hd; discriminate].
     destruct (refuse_location true p); [simpl in Hd; rewrite Hf in Hd; discriminate|].
     destruct (held_any s [id]); [simpl in Hd; rewrite Hf in Hd; discriminate|].
-    rewrite Hti in Hd. cbn [fst fs add_recs with_fs] in Hd.
+    simpl in Hpc. apply andb_true_iff in Hpc. destruct Hpc as [E1 E2]. apply lkey_eqb_eq in E1. apply lkey_eqb_eq in E2.
+    cbv zeta in Hd. rewrite Hti in Hd. rewrite E1 in Hd. rewrite E2 in Hd. rewrite fget_fset_same in Hd.
+    cbn [fst fs add_recs with_fs] in Hd.
     destruct (lkey_eqb (target_loc p ext) l) eqn:E.
     + apply lkey_eqb_eq in E. subst l. rewrite fget_fset_same in Hd. discriminate.
     + rewrite (fget_fset_other _ _ _ _ E) in Hd. rewrite Hf in Hd. discriminate.
@@ -135,15 +137,17 @@ Proof.
 Qed.
 
 Lemma step_outside_frame_p : forall s x l,
-  recs_inside s = true -> target_inside x = true -> inside l = false -> touches_env s x l = false ->
+  recs_inside s = true -> target_inside x = true -> put_coherent x = true -> inside l = false -> touches_env s x l = false ->
   fget (fs (fst (step s x))) l = fget (fs s) l.
 Proof.
-  intros s x l Hri Hti Hl Henv.
+  intros s x l Hri Hti Hpc Hl Henv.
   destruct x as [id fr ext c0 | m ids fr ext src | ids a | ids rel | members z c0 | ids | | ids | ids | l' c'];
     unfold step, step_v; simpl in Hti, Henv.
   - destruct fr as [p| |]; [| reflexivity | reflexivity].
     destruct (refuse_location true p); [reflexivity|].
-    destruct (held_any s [id]); [reflexivity|]. rewrite Hti. simpl.
+    destruct (held_any s [id]); [reflexivity|].
+    simpl in Hpc. apply andb_true_iff in Hpc. destruct Hpc as [E1 E2]. apply lkey_eqb_eq in E1. apply lkey_eqb_eq in E2.
+    cbv zeta. rewrite Hti. rewrite E1. rewrite E2. rewrite fget_fset_same. cbn [fst fs add_recs with_fs].
     apply fget_fset_other. apply inside_differ; assumption.
   - destruct fr as [p| |]; [| reflexivity | reflexivity].
     destruct (fget (fs s) src) as [cs|] eqn:Es; [|reflexivity].
@@ -169,7 +173,8 @@ Qed.
 Fixpoint guarded (s : state) (h : list op) : bool :=
   match h with
   | [] => true
-  | x :: r => sharing_visible s && negb (reingest s x) && target_inside x && recs_inside s && guarded (fst (step s x)) r
+  | x :: r => sharing_visible s && negb (reingest s x) && target_inside x && recs_inside s && put_coherent x
+              && guarded (fst (step s x)) r
   end.
 
 Fixpoint untouched_by_env (s : state) (h : list op) (l : lkey) : bool :=
